@@ -143,7 +143,6 @@ Record frame (s s' : sst) : Prop := {
   fr_closed : forall i, is_closed s' i = true ->
               is_closed s i = true \/ In i (oids s) \/ ss_next s <= i < ss_next s';
   fr_mono : forall i, is_closed s i = true -> is_closed s' i = true;
-  fr_qb : forall q, In q (ss_qb s') -> In q (ss_qb s) \/ qb_ctx q = None;
   fr_sctx : forall p, In p (ss_sctx s') -> In p (ss_sctx s) \/ In (fst (snd p)) (ss_allctx s');
   fr_allctx : incl (ss_allctx s) (ss_allctx s');
   fr_rets : ss_rets s' = ss_rets s
@@ -171,24 +170,21 @@ Proof.
     + destruct (fr_oids0 i H1) as [H2|H2]; [tauto | right; right; lia].
     + right. right. lia.
   - intros i H. auto.
-  - intros q H. destruct (fr_qb1 q H) as [H1|H1]; [auto | tauto].
   - intros p H. destruct (fr_sctx1 p H) as [H1|H1]; [|tauto].
     destruct (fr_sctx0 p H1) as [H2|H2]; [tauto|]. right. apply fr_allctx1. exact H2.
   - eapply incl_tran; eassumption.
   - congruence.
 Qed.
 
-(* no ended context, not disposed, not crashed, no WhenQuery binding with a context *)
+(* no ended context, not disposed, not crashed *)
 Definition quiet (s : sst) : Prop :=
   ss_done s = [] /\ ss_disposed s = false /\ ss_crashed s = false /\
-  (forall q, In q (ss_qb s) -> qb_ctx q = None) /\
   (forall p, In p (ss_sctx s) -> In (fst (snd p)) (ss_allctx s)).
 
 Lemma quiet_frame : forall s s', quiet s -> frame s s' -> quiet s'.
 Proof.
-  intros s s' [A [B [C [D E]]]] F. destruct F. repeat split; try congruence.
-  - intros q Hq. destruct (fr_qb0 q Hq) as [H|H]; [auto | exact H].
-  - intros p Hp. destruct (fr_sctx0 p Hp) as [H|H]; [apply fr_allctx0; auto | exact H].
+  intros s s' [A [B [C E]]] F. destruct F. repeat split; try congruence.
+  intros p Hp. destruct (fr_sctx0 p Hp) as [H|H]; [apply fr_allctx0; auto | exact H].
 Qed.
 
 Lemma fold_frame : forall (A : Type) (f : sst -> A -> sst),
@@ -260,7 +256,6 @@ Proof.
   - intros i H. destruct (Hc i H); tauto.
   - intros i H. auto.
   - tauto.
-  - tauto.
   - apply incl_refl.
   - reflexivity.
 Qed.
@@ -320,7 +315,6 @@ Proof.
     + right. right. right. left. apply Hqe. exact H.
   - intros i H. destruct (Hc i H); tauto.
   - intros i H. auto.
-  - intros q H. left. apply Hqb. exact H.
   - intros p H. left. apply Hsc. exact H.
   - apply incl_refl.
   - reflexivity.
@@ -392,7 +386,7 @@ Proof.
   intros st x Hst. destruct (sctx_get (ss_sctx st) x) as [[id t]|] eqn:E; [|apply frame_refl].
   apply sctx_get_In in E. apply frame_set_misc; try apply incl_refl; try apply incl_filter.
   - intros i H. apply close_mem in H. destruct H as [H|H]; [|tauto].
-    right. subst i. destruct Hst as [_ [_ [_ [_ Hs]]]]. apply Hs in E. cbn in E.
+    right. subst i. destruct Hst as [_ [_ [_ Hs]]]. apply Hs in E. cbn in E.
     unfold oids. repeat rewrite in_app_iff. tauto.
   - intros i H. apply close_mono. exact H.
 Qed.
@@ -400,26 +394,24 @@ Qed.
 Definition pwq_step (cl : list N) (st : sst) (b : qbind) : sst :=
   if ss_crashed st then st
   else if negb (qfn_eval (qb_fn b) cl) && negb (ctx_done st (qb_ctx b)) then st
-  else match qb_ctx b with
-       | Some _ => set_misc st (ss_qb st) (ss_wq st) (ss_qe st) (ss_sctx st) (ss_closed st) true
-       | None =>
-         set_misc st (filter (fun x => negb (Nat.eqb (qb_id x) (qb_id b))) (ss_qb st))
-                  (ss_wq st) (ss_qe st) (ss_sctx st) (close (ss_closed st) (qb_id b)) (ss_crashed st)
-       end.
+  else
+    set_misc st (filter (fun x => negb (Nat.eqb (qb_id x) (qb_id b))) (ss_qb st))
+             (ss_wq st) (ss_qe st) (ss_sctx st) (close (ss_closed st) (qb_id b)) (ss_crashed st).
 
 Lemma pwq_fold_frame : forall cl l st,
-  quiet st -> (forall b, In b l -> qb_ctx b = None) ->
+  quiet st ->
   (forall b, In b l -> In (qb_id b) (map qb_id (ss_qb st)) \/ is_closed st (qb_id b) = true) ->
   frame st (fold_left (pwq_step cl) l st).
 Proof.
-  intros cl. induction l as [|b r IH]; intros st Hq Hn Hin; simpl; [apply frame_refl|].
+  intros cl. induction l as [|b r IH]; intros st Hq Hin; simpl; [apply frame_refl|].
   assert (Hb : frame st (pwq_step cl st b) /\
                forall b', In b' r -> In (qb_id b') (map qb_id (ss_qb (pwq_step cl st b)))
                                      \/ is_closed (pwq_step cl st b) (qb_id b') = true).
-  { unfold pwq_step. destruct Hq as [_ [_ [Hc _]]]. rewrite Hc.
+  { unfold pwq_step. destruct (ss_crashed st) eqn:Hc.
+    { split; [apply frame_refl|]. intros b' Hb'. apply Hin. right. exact Hb'. }
     destruct (negb (qfn_eval (qb_fn b) cl) && negb (ctx_done st (qb_ctx b))).
     - split; [apply frame_refl|]. intros b' Hb'. apply Hin. right. exact Hb'.
-    - rewrite (Hn b (or_introl eq_refl)). split.
+    - split.
       + apply frame_set_misc'; try apply incl_refl; try apply incl_filter; [congruence | |].
         * intros i H. apply close_mem in H. destruct H as [H|H]; [|tauto]. subst i.
           destruct (Hin b (or_introl eq_refl)) as [H|H]; [|left; exact H].
@@ -435,7 +427,6 @@ Proof.
           -- right. apply close_mono. exact H. }
   destruct Hb as [Hf Hr]. eapply frame_trans; [exact Hf|]. apply IH.
   - eapply quiet_frame; [|exact Hf]. exact Hq.
-  - intros b' Hb'. apply Hn. right. exact Hb'.
   - exact Hr.
 Qed.
 
@@ -443,7 +434,7 @@ Lemma process_when_query_frame : forall s live, quiet s -> frame s (process_when
 Proof.
   intros s live Hq. change (process_when_query s live)
     with (fold_left (pwq_step (sclock s live)) (ss_qb s) s).
-  apply pwq_fold_frame; [exact Hq | apply Hq |].
+  apply pwq_fold_frame; [exact Hq|].
   intros b Hb. left. apply in_map. exact Hb.
 Qed.
 
@@ -1118,8 +1109,8 @@ Qed.
 
 Lemma wsame_quiet : forall s s', wsame s s' -> quiet s -> quiet s'.
 Proof.
-  intros s s' [A [B [C [D [E [F [G [H [I [J [K [L M]]]]]]]]]]]] [Q1 [Q2 [Q3 [Q4 Q5]]]].
-  unfold quiet. rewrite J, K, L, D, G, H. tauto.
+  intros s s' [A [B [C [D [E [F [G [H [I [J [K [L M]]]]]]]]]]]] [Q1 [Q2 [Q3 Q5]]].
+  unfold quiet. rewrite J, K, L, G, H. tauto.
 Qed.
 
 (* ProcessWhen keeps the invariant, for the activity it was told *)
@@ -1172,8 +1163,6 @@ Ltac frame_tac :=
     repeat rewrite in_app_iff; intuition (subst; lia)
   | let i := fresh "i" in let H := fresh "H" in intros i H; tauto
   | let i := fresh "i" in let H := fresh "H" in intros i H; exact H
-  | let q := fresh "q" in let H := fresh "H" in
-    intros q H; try (apply in_app_or in H; simpl in H); intuition (subst; auto)
   | let p := fresh "p" in let H := fresh "H" in
     intros p H; try (apply in_app_or in H; simpl in H); intuition (subst; simpl; auto)
   | let x := fresh "x" in let H := fresh "H" in intros x H; simpl; auto
@@ -1189,7 +1178,7 @@ Qed.
 
 Definition other_op (o : sop) : bool :=
   match o with
-  | OWhen _ _ | OWhenNot _ _ | OCancel _ | ODispose | OWhenQuery _ (Some _) => false
+  | OWhen _ _ | OWhenNot _ _ | OCancel _ | ODispose => false
   | _ => true
   end.
 
@@ -1199,8 +1188,7 @@ Proof.
   - destruct (ss_disposed s); [apply frame_refl | apply sub_time_frame].
   - destruct (ss_disposed s); [apply frame_refl | apply sub_time_frame].
   - destruct (ss_disposed s); [apply frame_refl | apply sub_time_frame].
-  - destruct ctx; [discriminate|].
-    destruct (ss_disposed s || ctx_done s None); [apply frame_refl|]. cbn [fst]. frame_tac.
+  - destruct (ss_disposed s || ctx_done s ctx); [apply frame_refl|]. cbn [fst]. frame_tac.
   - destruct (ss_disposed s || (tick <=? v_qtick v)%N); [apply frame_refl|]. cbn [fst]. frame_tac.
   - destruct (ss_disposed s || negb (v_running v)); [apply frame_refl|]. cbn [fst]. frame_tac.
   - destruct (negb (known v [s0])); [apply frame_refl|].
@@ -1351,7 +1339,6 @@ Proof.
       * cbn [fst]. split; [exact HI|]. split; [apply incl_refl|]. split; [reflexivity | tauto].
       * destruct (sub_when_spec a s v true (uniq sts) ctx HI (uniq_NoDup sts) Hc) as [A [B [C [D _]]]].
         tauto.
-    + destruct ctx; discriminate.
 Qed.
 
 Lemma quiet_crashed : forall a s, Inv a s -> ss_crashed s = false.
@@ -1398,7 +1385,7 @@ Lemma step_Inv : forall a s e,
   end.
 Proof.
   intros a s e HI Hp Hc. pose proof (quiet_crashed a s HI) as Hcr.
-  destruct e as [k v o|act deact|act deact before live qt| |v p|].
+  destruct e as [k v o|act deact|act deact before live qt| |v p| |qt0].
   - rewrite (step_op s k v o Hcr). cbn [act_upd].
     assert (Hp0 : plain_ev (EOp 0 v o) = true) by exact Hp.
     assert (Hc0 : ev_coh a (EOp 0 v o)) by exact Hc.
@@ -1420,6 +1407,10 @@ Proof.
     split; [apply incl_refl | reflexivity].
   - unfold step. rewrite Hcr. cbn [act_upd]. split; [exact HI|]. split; [tauto|].
     split; [apply incl_refl | reflexivity].
+  - unfold step. rewrite Hcr. cbn [act_upd].
+    pose proof (process_when_queue_frame s qt0) as F.
+    split; [eapply Inv_frame; eassumption|]. destruct F.
+    split; [exact fr_mono0|]. split; [rewrite fr_wb0; apply incl_refl | exact fr_rets0].
 Qed.
 
 Lemma coherent_cons : forall a e r, coherent a (e :: r) <-> ev_coh a e /\ coherent (act_upd a e) r.
@@ -1463,12 +1454,13 @@ Proof.
   apply coherent_cons in Hc. destruct Hc as [Hc1 Hc2].
   destruct (step_Inv a s e HI Hp1 Hc1) as [A [_ B]].
   rewrite run_cons. rewrite (IH (act_upd a e) (step s e) k A Hp2 Hc2).
-  - destruct e as [k' v o|ac de|ac de bf lv qt| |v p|]; cbv beta iota in B.
+  - destruct e as [k' v o|ac de|ac de bf lv qt| |v p| |qt0]; cbv beta iota in B.
     + destruct B as [_ B]. rewrite B. cbn [ret_of].
       assert (k <> k'). { intros E. subst. apply (Hf (EOp k' v o)); [left; reflexivity | reflexivity]. }
       apply Nat.eqb_neq in H. rewrite H. reflexivity.
     + destruct B as [_ B]. rewrite B. reflexivity.
     + rewrite B. reflexivity.
+    + destruct B as [_ B]. rewrite B. reflexivity.
     + destruct B as [_ B]. rewrite B. reflexivity.
     + destruct B as [_ B]. rewrite B. reflexivity.
     + destruct B as [_ B]. rewrite B. reflexivity.
@@ -1522,7 +1514,7 @@ Proof.
     apply coherent_cons in Hc. destruct Hc as [Hc1 Hc2].
     destruct (step_Inv a s e HI Hp1 Hc1) as [A [B C]].
     rewrite run_cons.
-    destruct e as [k v o|ac de|ac de bf lv qt| |v p|].
+    destruct e as [k v o|ac de|ac de bf lv qt| |v p| |qt0].
     3: {
       (* processSubscriptions *)
       cbn [walked_later held_later]. set (a' := act_upd a (EProcess ac de bf lv qt)) in *.
@@ -1759,7 +1751,7 @@ Lemma walked_single : forall neg x post a,
 Proof.
   intros neg x. induction post as [|e r IH]; intros a Ha; [reflexivity|].
   cbn [walked_later held_later].
-  destruct e as [k v o|ac de|ac de bf lv qt| |v p|]; try (cbn [act_upd orb]; apply IH; exact Ha).
+  destruct e as [k v o|ac de|ac de bf lv qt| |v p| |qt0]; try (cbn [act_upd orb]; apply IH; exact Ha).
   rewrite walk_full_single. cbn [act_upd]. rewrite mem_app.
   destruct (mem x ac) eqn:E1.
   - cbn [orb andb]. destruct (Bool.eqb true (negb neg)) eqn:E; [reflexivity|]. cbn [orb].
